@@ -26,7 +26,7 @@ VARIABLES cs
 (* Remaining known defects of the shipped code.  Octal8 (fix b953446), Utf8Overlong and Utf8SurrogateHigh *)
 (* (fix aa3a89d), PlainCharRaw and WideCharRaw (fix 1ef9a15) were deviations until those commits; their *)
 (* disjuncts are deleted and the model below transcribes the repaired code.                            *)
-AllDevs == {"StrEscapeTrunc", "CharConstCpRange"}
+AllDevs == {"StrEscapeTrunc"}
 ASSUME Devs \subseteq AllDevs
 
 BS == 92   SQ == 39   DQ == 34   NL == 10
@@ -376,7 +376,7 @@ ModelChr(pfx, body, targ, D) ==
      ELSE IF d.st = "abort" THEN MAbort
      ELSE IF tok[1 + d.n] # SQ THEN MReject                 \* "more than one character"
      ELSE IF d.hexoct /\ ~WFits(d.w, size) THEN MReject    \* hexoct && chr >> (t ? t->size * 8 - 1 : 7) >> 1
-     ELSE IF "CharConstCpRange" \notin D /\ ~d.hexoct /\ pfx \in {"u8", "u"}
+     ELSE IF ~d.hexoct /\ pfx \in {"u8", "u"}            \* !hexoct && t && t->size < 4 && chr >= (t->size == 1 ? 0x80 : 0x10000)
              /\ NatOfW(d.w) >= (IF pfx = "u8" THEN 128 ELSE 65536) THEN MReject
      ELSE IF pfx = "" THEN          \* !t: if (targ->signedchar && val >= 0x80 && val < 0x100) val -= 0x100; larger codes stay raw
           IF CharSigned(targ) /\ d.w[1] = 0 /\ d.w[2] >= 128 /\ d.w[2] < 256 THEN OkChr(ty, size, <<65535, 65280 + low>>, TRUE)
